@@ -1,10 +1,16 @@
 (* C08 (package decl), part 3: the numbers parse.c stores in the types it builds (ty->size, ty->align) are
-   sizeof / _Alignof of the C11 type on the LP64 psABI.
+   sizeof / _Alignof of the C11 type on the LP64 psABI - or the declarator is rejected as "array too large".
 
-   ty->size is a C int.  [fits t]: every object type along the array spine of t is smaller than 2^31 bytes.
-   Under [fits] the stored size is the psABI size (any declarator, any nesting, multi-dimensional arrays);
-   an array of unknown bound stores MINUS the element size (chibicc's marker for "incomplete": size < 0);
-   the stored alignment is the psABI alignment without any side condition.
+   ty->size is a C int.  Since fix fbdf355 array_dimensions refuses every array whose bound times element size
+   leaves the C int, so (no side condition on sizes any more):
+
+     * [declarator_size_align]      declarator() answers "array too large", or the stored size and alignment are
+                                    the psABI numbers (an array of unknown bound stores MINUS the element size,
+                                    chibicc's mark of an incomplete type);
+     * [too_large_exact]            and "array too large" is answered EXACTLY when some array derivation written in the
+                                    declarator needs more than INT32_MAX bytes (Spec: oversize) - never for a smaller
+                                    one (the dummy pass cannot fire alone), always for a bigger one.
+
    Function types and void have no size in C11 (Spec: None); chibicc stores 1 for them (GNU C); nothing is
    claimed about that. *)
 From Coq Require Import List ZArith Bool Lia.
@@ -13,19 +19,6 @@ From Chibicc Require Import Spec.DeclSyntax Spec.DeclSpec6_7_6 Model.Declarator
 Import ListNotations.
 Local Open Scope Z_scope.
 
-Definition leaf_fits (l : leaf) : bool :=
-  match l with LAgg s _ => (0 <=? s) && (s <? 2147483648) | _ => true end.
-
-Fixpoint fits (t : ty) : bool :=
-  match t with
-  | TLeaf l => leaf_fits l
-  | TArr (Some n) e =>
-      fits e && (0 <=? n) && (n <? 2147483648) &&
-      match sizeof e with Some s => n * s <? 2147483648 | None => true end
-  | TArr None e => fits e
-  | _ => true
-  end.
-
 Lemma sizeof_unqual : forall t, sizeof (unqual t) = sizeof t.
 Proof.
   induction t as [l|q t IH|n t IH|r IH ps k]; cbn [unqual sizeof]; try reflexivity.
@@ -33,51 +26,53 @@ Proof.
 Qed.
 Lemma alignof_unqual : forall t, alignof (unqual t) = alignof t.
 Proof. induction t as [l|q t IH|n t IH|r IH ps k]; cbn [unqual alignof]; auto. Qed.
-Lemma fits_unqual : forall t, fits (unqual t) = fits t.
-Proof.
-  induction t as [l|q t IH|n t IH|r IH ps k]; cbn [unqual fits]; try reflexivity.
-  destruct n; [rewrite IH, sizeof_unqual|rewrite IH]; reflexivity.
-Qed.
 
 (* the invariant of a model type *)
 Definition size_ok (m : mty) : Prop :=
-  fits (shape m) = true ->
-  (forall s, sizeof (shape m) = Some s -> ty_size m = s /\ 0 <= s < 2147483648) /\
+  (forall s, sizeof (shape m) = Some s -> ty_size m = s /\ 0 <= s <= 2147483647) /\
   (forall e s, shape m = TArr None e -> sizeof e = Some s -> ty_size m = - s).
 Definition align_ok (m : mty) : Prop :=
   forall a, alignof (shape m) = Some a -> ty_align m = a.
 
-Lemma size_ok_base : forall l, size_ok (MBase l).
+Lemma size_ok_base : forall l, leaf_in_range l = true -> size_ok (MBase l).
 Proof.
-  intros l Hf. split; [|discriminate]. cbn [shape sizeof ty_size fits] in *.
-  destruct l; cbn [leaf_sizeof leaf_size leaf_fits] in *; intros s' E; try discriminate E; injection E as E; subst s';
+  intros l Hf. split; [|discriminate]. cbn [shape sizeof ty_size] in *.
+  destruct l; cbn [leaf_sizeof leaf_size leaf_in_range] in *; intros s' E; try discriminate E; injection E as E; subst s';
     try (split; [reflexivity|lia]).
 Qed.
 Lemma align_ok_base : forall l, align_ok (MBase l).
 Proof. intros l a E. destruct l; cbn in *; congruence. Qed.
 
 Lemma size_ok_ptr : forall m, size_ok (MPtr m).
-Proof.
-  intros m _. split; [|discriminate]. intros s E. cbn in E. injection E as E. subst s. cbn. lia.
-Qed.
+Proof. intros m. split; [|discriminate]. intros s E. cbn in E. injection E as E. subst s. cbn. lia. Qed.
 Lemma size_ok_func : forall r ps v, size_ok (MFunc r ps v).
-Proof. intros r ps v _. split; discriminate. Qed.
+Proof. intros r ps v. split; discriminate. Qed.
+
+(* k <= M / b  <->  k * b <= M   for b >= 1 : the C test `len > INT32_MAX / MAX(size, 1)` *)
+Lemma div_test : forall k b, 1 <= b -> (k >? 2147483647 / b) = (k * b >? 2147483647).
+Proof.
+  intros k b Hb. rewrite !Z.gtb_ltb.
+  destruct (2147483647 / b <? k) eqn:E1, (2147483647 <? k * b) eqn:E2; try reflexivity.
+  - apply Z.ltb_lt in E1. apply Z.ltb_ge in E2. exfalso.
+    assert (k <= 2147483647 / b) by (apply Z.div_le_lower_bound; lia). lia.
+  - apply Z.ltb_ge in E1. apply Z.ltb_lt in E2. exfalso.
+    pose proof (Z.mul_div_le 2147483647 b ltac:(lia)). nia.
+Qed.
 
 Lemma size_ok_array : forall m n, size_ok m ->
-  match n with Some k => 0 <= k < 2147483648 | None => True end -> size_ok (array_of m (len_of n)).
+  match n with Some k => 0 <= k | None => True end -> fit n m = true -> size_ok (array_of m (len_of n)).
 Proof.
-  intros m n Hm Hn Hf. unfold array_of in *. cbn [shape fits ty_size] in *.
-  destruct n as [k|]; cbn [len_of] in *.
-  - rewrite int32_id in * by lia.
-    destruct (k <? 0) eqn:Ek; [apply Z.ltb_lt in Ek; lia|]. cbn [fits sizeof] in *.
-    apply andb_prop in Hf. destruct Hf as [Hf Hprod]. apply andb_prop in Hf. destruct Hf as [Hf _].
-    apply andb_prop in Hf. destruct Hf as [Hf _].
-    destruct (Hm Hf) as [Hs _]. split; [|discriminate].
+  intros m n [Hs Hi] Hn Hfit. unfold size_ok, array_of. cbn [shape ty_size].
+  destruct n as [k|]; cbn [len_of fit] in *.
+  - apply negb_true_iff in Hfit. pose proof (too_large_bound k m Hfit) as Hk.
+    rewrite int32_id by lia. destruct (k <? 0) eqn:Ek; [apply Z.ltb_lt in Ek; lia|].
+    split; [|discriminate]. cbn [sizeof].
     intros s E. destruct (sizeof (shape m)) as [se|]; [|discriminate]. injection E as E. subst s.
-    destruct (Hs se eq_refl) as [Hse Hr]. apply Z.ltb_lt in Hprod. rewrite Hse.
-    assert (0 <= k * se) by lia.
-    rewrite (Z.mul_comm se k). rewrite int32_id by lia. split; lia.
-  - cbn [Z.ltb Z.compare fits sizeof] in *. destruct (Hm Hf) as [Hs _]. split; [discriminate|].
+    destruct (Hs se eq_refl) as [Hse Hr]. unfold too_large in Hfit. rewrite Hse in Hfit.
+    rewrite div_test in Hfit by lia. rewrite Z.gtb_ltb in Hfit. apply Z.ltb_ge in Hfit.
+    rewrite Hse. assert (0 <= k * se <= 2147483647) by nia.
+    rewrite (Z.mul_comm se k), int32_id by lia. split; lia.
+  - cbn [Z.ltb Z.compare]. split; [discriminate|].
     intros e s E Hse. injection E as E. subst e.
     destruct (Hs s Hse) as [Hms Hr]. rewrite Hms.
     replace (s * -1) with (- s) by lia. unfold int32.
@@ -92,11 +87,11 @@ Lemma align_ok_func : forall r ps v, align_ok (MFunc r ps v).
 Proof. intros r ps v a E. discriminate E. Qed.
 
 Definition Z_decl (d : decl) : Prop :=
-  c11_ok d = true -> chibicc_ok d = true ->
-  forall m, size_ok m /\ align_ok m -> size_ok (m_apply d m) /\ align_ok (m_apply d m).
+  c11_ok d = true ->
+  forall m, chk d m = true -> size_ok m /\ align_ok m -> size_ok (m_apply d m) /\ align_ok (m_apply d m).
 Definition Z_dd (dd : direct) : Prop :=
-  c11_ok_dd dd = true -> chibicc_ok_dd dd = true ->
-  forall m, size_ok m /\ align_ok m -> size_ok (m_apply_dd dd m) /\ align_ok (m_apply_dd dd m).
+  c11_ok_dd dd = true ->
+  forall m, chk_dd dd m = true -> size_ok m /\ align_ok m -> size_ok (m_apply_dd dd m) /\ align_ok (m_apply_dd dd m).
 
 Theorem sizes_all : (forall d, Z_decl d) /\ (forall dd, Z_dd dd).
 Proof.
@@ -104,49 +99,236 @@ Proof.
               (forall l : plist, True) /\ (forall p : param, True)).
   2: { split; [exact (proj1 H)|exact (proj1 (proj2 H))]. }
   apply decl_mutind; try (intros; exact I).
-  - intros q d IH Hc Hp m Hm. cbn [c11_ok chibicc_ok m_apply] in *. apply IH; try assumption.
+  - intros q d IH Hc m Hk Hm. cbn [c11_ok chk m_apply] in *. apply IH; try assumption.
     split; [apply size_ok_ptr|apply align_ok_ptr].
-  - intros dd IH Hc Hp m Hm. cbn [c11_ok chibicc_ok m_apply] in *. apply IH; assumption.
-  - intros x _ _ m Hm. exact Hm.
-  - intros d IH Hc Hp m Hm. cbn [c11_ok_dd chibicc_ok_dd m_apply_dd] in *.
-    apply andb_prop in Hc. destruct Hc as [_ Hc]. apply IH; assumption.
-  - intros dd' IH n Hc Hp m [Hm1 Hm2]. cbn [c11_ok_dd chibicc_ok_dd m_apply_dd] in *.
+  - intros dd IH Hc m Hk Hm. cbn [c11_ok chk m_apply] in *. apply IH; assumption.
+  - intros x _ m _ Hm. exact Hm.
+  - intros d IH Hc m Hk Hm. cbn [c11_ok_dd chk_dd m_apply_dd] in *.
+    apply andb_prop in Hc. destruct Hc as [_ Hc]. apply andb_prop in Hk. destruct Hk as [_ Hk]. apply IH; assumption.
+  - intros dd' IH n Hc m Hk [Hm1 Hm2]. cbn [c11_ok_dd chk_dd m_apply_dd] in *.
     apply andb_prop in Hc. destruct Hc as [Hc Hn0]. apply andb_prop in Hc. destruct Hc as [_ Hc].
-    apply andb_prop in Hp. destruct Hp as [Hp Hn1].
+    apply andb_prop in Hk. destruct Hk as [Hfit Hk].
     apply IH; try assumption. split; [|apply align_ok_array; exact Hm2].
-    apply size_ok_array; [exact Hm1|]. destruct n as [k|]; [|exact I].
-    apply Z.leb_le in Hn0. apply Z.ltb_lt in Hn1. lia.
-  - intros dd' IH ps _ Hc Hp m Hm. cbn [c11_ok_dd chibicc_ok_dd m_apply_dd] in *.
+    apply size_ok_array; [exact Hm1| |exact Hfit]. destruct n as [k|]; [|exact I].
+    apply Z.leb_le in Hn0. exact Hn0.
+  - intros dd' IH ps _ Hc m Hk Hm. cbn [c11_ok_dd chk_dd m_apply_dd] in *.
     apply andb_prop in Hc. destruct Hc as [Hc _]. apply andb_prop in Hc. destruct Hc as [_ Hc].
-    apply andb_prop in Hp. destruct Hp as [Hp _]. apply andb_prop in Hp. destruct Hp as [_ Hp].
+    apply andb_prop in Hk. destruct Hk as [_ Hk].
     apply IH; try assumption. split; [apply size_ok_func|apply align_ok_func].
 Qed.
 
 (* ------------------------------------------------------------------ headline of part 3 *)
 Theorem declarator_size_align : forall d b rest,
-  c11_ok d = true -> chibicc_ok d = true -> stops rest ->
+  c11_ok d = true -> leaf_in_range b = true -> stops rest ->
   let t := type_of (TLeaf b) d in
+  parse_declarator (print_decl d ++ rest) (MBase b) = TooLarge \/
   exists m, parse_declarator (print_decl d ++ rest) (MBase b) = Ok (name_of d, m, rest) /\
     shape m = unqual t /\
     (forall a, alignof t = Some a -> ty_align m = a) /\
-    (fits t = true ->
-       (forall s, sizeof t = Some s -> ty_size m = s) /\
-       (forall e s, t = TArr None e -> sizeof e = Some s -> ty_size m = - s)).
+    (forall s, sizeof t = Some s -> ty_size m = s) /\
+    (forall e s, t = TArr None e -> sizeof e = Some s -> ty_size m = - s).
 Proof.
-  intros d b rest Hc Hp Hs t. exists (m_apply d (MBase b)).
+  intros d b rest Hc Hb Hs t. rewrite parse_declarator_print by assumption.
+  destruct (chk d (MBase b)) eqn:Hk; [right|left; reflexivity].
+  exists (m_apply d (MBase b)).
   assert (Hsh : shape (m_apply d (MBase b)) = unqual t)
     by (apply m_apply_is_c11_type; [assumption|assumption|reflexivity]).
-  destruct (proj1 sizes_all d Hc Hp (MBase b) (conj (size_ok_base b) (align_ok_base b))) as [Hsz Hal].
-  split; [apply parse_declarator_print; assumption|]. split; [exact Hsh|]. split.
+  destruct (proj1 sizes_all d Hc (MBase b) Hk (conj (size_ok_base b Hb) (align_ok_base b))) as [[H1 H2] Hal].
+  split; [reflexivity|]. split; [exact Hsh|]. split; [|split].
   - intros a Ha. apply Hal. rewrite Hsh, alignof_unqual. exact Ha.
-  - intros Hf. unfold size_ok in Hsz. rewrite Hsh, fits_unqual in Hsz. destruct (Hsz Hf) as [H1 H2]. split.
-    + intros s E. apply H1. rewrite sizeof_unqual. exact E.
-    + intros e s Et Ee. apply (H2 (unqual e) s).
-      * rewrite Et. reflexivity.
-      * rewrite sizeof_unqual. exact Ee.
+  - intros s E. apply H1. rewrite Hsh, sizeof_unqual. exact E.
+  - intros e s Et Ee. apply (H2 (unqual e) s).
+    + rewrite Hsh, Et. reflexivity.
+    + rewrite sizeof_unqual. exact Ee.
 Qed.
 
 (* the same for any start type whose stored numbers are right (a typedef name, a struct from Model/Layout.v) *)
-Theorem m_apply_size_align : forall d m, c11_ok d = true -> chibicc_ok d = true ->
+Theorem m_apply_size_align : forall d m, c11_ok d = true -> chk d m = true ->
   size_ok m -> align_ok m -> size_ok (m_apply d m) /\ align_ok (m_apply d m).
-Proof. intros d m Hc Hp H1 H2. apply (proj1 sizes_all d Hc Hp m (conj H1 H2)). Qed.
+Proof. intros d m Hc Hk H1 H2. apply (proj1 sizes_all d Hc m Hk (conj H1 H2)). Qed.
+
+(* ------------------------------------------------------------------ the dummy pass never fires alone *)
+(* the type of the dummy pass is, at every point, either as big as the type of the real pass or empty *)
+Definition smaller (m1 m2 : mty) : Prop := ty_size m1 = ty_size m2 \/ ty_size m1 = 0.
+
+Lemma fit_smaller : forall n m1 m2, smaller m1 m2 -> fit n m2 = true -> fit n m1 = true.
+Proof.
+  intros n m1 m2 H Hf. destruct n as [k|]; [|reflexivity]. cbn [fit] in *.
+  apply negb_true_iff in Hf. apply negb_true_iff. unfold too_large in *.
+  destruct H as [H|H]; [rewrite H; exact Hf|].
+  rewrite H. rewrite Z.gtb_ltb in *. apply Z.ltb_ge in Hf. apply Z.ltb_ge.
+  assert (2147483647 / Z.max (ty_size m2) 1 <= 2147483647 / Z.max 0 1).
+  { apply Z.div_le_compat_l; lia. }
+  lia.
+Qed.
+
+Lemma smaller_array : forall m1 m2 len, smaller m1 m2 -> smaller (array_of m1 len) (array_of m2 len).
+Proof.
+  intros m1 m2 len [H|H]; unfold smaller, array_of; cbn [ty_size]; [left; rewrite H; reflexivity|right].
+  rewrite H. reflexivity.
+Qed.
+
+Definition M_decl (d : decl) : Prop :=
+  forall m1 m2, smaller m1 m2 -> chk d m2 = true -> chk d m1 = true.
+Definition M_dd (dd : direct) : Prop :=
+  forall m1 m2, smaller m1 m2 -> chk_dd dd m2 = true -> chk_dd dd m1 = true.
+
+Theorem mono_all : (forall d, M_decl d) /\ (forall dd, M_dd dd).
+Proof.
+  assert (H : (forall d, M_decl d) /\ (forall dd, M_dd dd) /\ (forall ps : params, True) /\
+              (forall l : plist, True) /\ (forall p : param, True)).
+  2: { split; [exact (proj1 H)|exact (proj1 (proj2 H))]. }
+  apply decl_mutind; try (intros; exact I).
+  - intros q d IH m1 m2 _ Hk. cbn [chk] in *. apply (IH (MPtr m1) (MPtr m2)); [left; reflexivity|exact Hk].
+  - intros dd IH m1 m2 Hs Hk. cbn [chk] in *. apply (IH m1 m2); assumption.
+  - intros x m1 m2 _ _. reflexivity.
+  - intros d IH m1 m2 Hs Hk. cbn [chk_dd] in *. apply andb_prop in Hk. destruct Hk as [Hd Hk].
+    rewrite Hd. cbn [andb]. apply (IH m1 m2); assumption.
+  - intros dd' IH n m1 m2 Hs Hk. cbn [chk_dd] in *. apply andb_prop in Hk. destruct Hk as [Hf Hk].
+    rewrite (fit_smaller n m1 m2 Hs Hf). cbn [andb].
+    apply (IH _ _ (smaller_array m1 m2 (len_of n) Hs) Hk).
+  - intros dd' IH ps _ m1 m2 _ Hk. cbn [chk_dd] in *. apply andb_prop in Hk. destruct Hk as [Hp Hk].
+    rewrite Hp. cbn [andb]. apply (IH (MFunc m1 (m_params ps) (m_variadic ps)) (MFunc m2 (m_params ps) (m_variadic ps)));
+      [left; reflexivity|exact Hk].
+Qed.
+
+Lemma chk_dummy : forall d m, chk d m = true -> chk d dummy = true.
+Proof. intros d m H. apply (proj1 mono_all d dummy m); [right; reflexivity|exact H]. Qed.
+
+(* ------------------------------------------------------------------ "array too large" exactly when oversize *)
+Lemma fit_spec : forall n m T, shape m = unqual T -> size_ok m -> is_complete T = true ->
+  fit n m = negb (array_too_big n T).
+Proof.
+  intros n m T Hsh [Hs _] Hc. destruct n as [k|]; [|reflexivity]. cbn [fit array_too_big]. f_equal.
+  unfold is_complete in Hc. unfold esize. destruct (sizeof T) as [s|] eqn:E; [|discriminate].
+  destruct (Hs s) as [Hm Hr]; [rewrite Hsh, sizeof_unqual; exact E|].
+  unfold too_large. rewrite Hm. apply div_test. lia.
+Qed.
+
+Definition E_decl (d : decl) : Prop :=
+  c11_ok d = true ->
+  forall m T, elems_ok d T = true -> shape m = unqual T -> size_ok m -> chk d m = negb (oversize d T).
+Definition E_dd (dd : direct) : Prop :=
+  c11_ok_dd dd = true ->
+  forall m T, elems_ok_dd dd T = true -> shape m = unqual T -> size_ok m -> chk_dd dd m = negb (oversize_dd dd T).
+Definition E_params (ps : params) : Prop :=
+  c11_ok_params ps = true -> elems_ok_params ps = true -> chk_params ps = negb (oversize_params ps).
+Definition E_plist (l : plist) : Prop :=
+  c11_ok_plist l = true -> elems_ok_plist l = true -> chk_plist l = negb (oversize_plist l).
+Definition E_param (p : param) : Prop :=
+  c11_ok_param p = true -> elems_ok_param p = true -> chk_param p = negb (oversize_param p).
+
+Theorem exact_all :
+  (forall d, E_decl d) /\ (forall dd, E_dd dd) /\ (forall ps, E_params ps) /\
+  (forall l, E_plist l) /\ (forall p, E_param p).
+Proof.
+  apply decl_mutind.
+  - (* DPtr *)
+    intros q d IH Hc m T He Hsh Hs. cbn [c11_ok chk oversize elems_ok] in *.
+    apply IH; try assumption; [|apply size_ok_ptr]. cbn [shape unqual]. rewrite Hsh. reflexivity.
+  - (* DDirect *)
+    intros dd IH Hc m T He Hsh Hs. cbn [c11_ok chk oversize elems_ok] in *. apply IH; assumption.
+  - (* DIdent *)
+    intros x _ m T _ _ _. reflexivity.
+  - (* DParen *)
+    intros d IH Hc m T He Hsh Hs. cbn [c11_ok_dd chk_dd oversize_dd elems_ok_dd] in *.
+    apply andb_prop in Hc. destruct Hc as [_ Hc].
+    rewrite <- (IH Hc m T He Hsh Hs).
+    destruct (chk d m) eqn:Hk; [|apply andb_false_r]. rewrite (chk_dummy d m Hk). reflexivity.
+  - (* DArray *)
+    intros dd' IH n Hc m T He Hsh Hs. cbn [c11_ok_dd chk_dd oversize_dd elems_ok_dd] in *.
+    apply andb_prop in Hc. destruct Hc as [Hc Hn0]. apply andb_prop in Hc. destruct Hc as [_ Hc].
+    apply andb_prop in He. destruct He as [Hcomp He].
+    rewrite (fit_spec n m T Hsh Hs Hcomp).
+    destruct (array_too_big n T) eqn:Hbig; cbn [negb andb orb]; [reflexivity|].
+    assert (Hfit : fit n m = true) by (rewrite (fit_spec n m T Hsh Hs Hcomp), Hbig; reflexivity).
+    assert (Hn : match n with Some k => 0 <= k | None => True end).
+    { destruct n as [k|]; [apply Z.leb_le in Hn0; exact Hn0|exact I]. }
+    apply IH; try assumption; [|apply size_ok_array; assumption].
+    unfold array_of. cbn [shape unqual]. rewrite Hsh. f_equal.
+    destruct n as [k|]; cbn [len_of]; [|reflexivity].
+    cbn [fit] in Hfit. apply negb_true_iff in Hfit. apply too_large_bound in Hfit.
+    rewrite int32_id by lia. destruct (k <? 0) eqn:E; [apply Z.ltb_lt in E; lia|reflexivity].
+  - (* DFunc *)
+    intros dd' IH ps IHps Hc m T He Hsh Hs. cbn [c11_ok_dd chk_dd oversize_dd elems_ok_dd] in *.
+    apply andb_prop in Hc. destruct Hc as [Hc Hcps]. apply andb_prop in Hc. destruct Hc as [_ Hc].
+    apply andb_prop in He. destruct He as [Heps He].
+    rewrite (IHps Hcps Heps).
+    destruct (oversize_params ps) eqn:Hbig; cbn [negb andb orb]; [reflexivity|].
+    assert (Hk : chk_params ps = true) by (rewrite (IHps Hcps Heps), Hbig; reflexivity).
+    apply IH; try assumption; [|apply size_ok_func].
+    destruct (proj1 (proj2 (proj2 types_all)) ps Hcps Hk) as [E1 E2].
+    cbn [shape unqual]. rewrite Hsh, E1, E2. reflexivity.
+  - (* PUnspec *) intros _ _. reflexivity.
+  - (* PVoid *) intros _ _. reflexivity.
+  - (* PList *) intros l IH v Hc He. cbn [c11_ok_params chk_params oversize_params elems_ok_params] in *. apply IH; assumption.
+  - (* POne *) intros p IH Hc He. cbn [c11_ok_plist chk_plist oversize_plist elems_ok_plist] in *. apply IH; assumption.
+  - (* PCons *)
+    intros p IH l IHl Hc He. cbn [c11_ok_plist chk_plist oversize_plist elems_ok_plist] in *.
+    apply andb_prop in Hc. destruct Hc as [Hc Hcl]. apply andb_prop in He. destruct He as [He Hel].
+    rewrite (IH Hc He), (IHl Hcl Hel). symmetry. apply negb_orb.
+  - (* Param *)
+    intros b d IH Hc He. cbn [c11_ok_param chk_param oversize_param elems_ok_param] in *.
+    apply andb_prop in Hc. destruct Hc as [Hc _]. apply andb_prop in He. destruct He as [Hb He].
+    apply IH; try assumption; [reflexivity|apply size_ok_base; exact Hb].
+Qed.
+
+Theorem chk_is_not_oversize : forall d b, c11_ok d = true -> leaf_in_range b = true ->
+  elems_ok d (TLeaf b) = true -> chk d (MBase b) = negb (oversize d (TLeaf b)).
+Proof.
+  intros d b Hc Hb He. apply (proj1 exact_all d Hc (MBase b) (TLeaf b) He eq_refl (size_ok_base b Hb)).
+Qed.
+
+(* "array too large" exactly for the declarators that need an array of more than INT32_MAX bytes *)
+Theorem too_large_exact : forall d b rest,
+  c11_ok d = true -> leaf_in_range b = true -> elems_ok d (TLeaf b) = true -> stops rest ->
+  (parse_declarator (print_decl d ++ rest) (MBase b) = TooLarge <-> oversize d (TLeaf b) = true).
+Proof.
+  intros d b rest Hc Hb He Hs. rewrite parse_declarator_print by assumption.
+  rewrite (chk_is_not_oversize d b Hc Hb He).
+  destruct (oversize d (TLeaf b)); cbn [negb]; split; intros H; try reflexivity; discriminate H.
+Qed.
+
+(* both together: within the limit the psABI numbers, beyond it the diagnostic *)
+Theorem declarator_size_or_too_large : forall d b rest,
+  c11_ok d = true -> leaf_in_range b = true -> elems_ok d (TLeaf b) = true -> stops rest ->
+  let t := type_of (TLeaf b) d in
+  if oversize d (TLeaf b)
+  then parse_declarator (print_decl d ++ rest) (MBase b) = TooLarge
+  else exists m, parse_declarator (print_decl d ++ rest) (MBase b) = Ok (name_of d, m, rest) /\
+         shape m = unqual t /\
+         (forall a, alignof t = Some a -> ty_align m = a) /\
+         (forall s, sizeof t = Some s -> ty_size m = s) /\
+         (forall e s, t = TArr None e -> sizeof e = Some s -> ty_size m = - s).
+Proof.
+  intros d b rest Hc Hb He Hs t.
+  pose proof (too_large_exact d b rest Hc Hb He Hs) as Hx.
+  destruct (oversize d (TLeaf b)) eqn:Ho.
+  - apply Hx. reflexivity.
+  - destruct (declarator_size_align d b rest Hc Hb Hs) as [H|H]; [|exact H].
+    apply Hx in H. discriminate H.
+Qed.
+
+(* the same for type names *)
+Theorem typename_size_or_too_large : forall d b rest,
+  c11_ok d = true -> name_of d = None -> leaf_in_range b = true -> elems_ok d (TLeaf b) = true -> stops rest ->
+  let t := type_of (TLeaf b) d in
+  if oversize d (TLeaf b)
+  then parse_typename (TBase b :: print_decl d ++ rest) = TooLarge
+  else exists m, parse_typename (TBase b :: print_decl d ++ rest) = Ok (m, rest) /\
+         shape m = unqual t /\
+         (forall a, alignof t = Some a -> ty_align m = a) /\
+         (forall s, sizeof t = Some s -> ty_size m = s).
+Proof.
+  intros d b rest Hc Hn Hb He Hs t. rewrite parse_typename_print by assumption.
+  rewrite (chk_is_not_oversize d b Hc Hb He).
+  destruct (oversize d (TLeaf b)) eqn:Ho; cbn [negb]; [reflexivity|].
+  assert (Hk : chk d (MBase b) = true) by (rewrite (chk_is_not_oversize d b Hc Hb He), Ho; reflexivity).
+  exists (m_apply d (MBase b)).
+  assert (Hsh : shape (m_apply d (MBase b)) = unqual t)
+    by (apply m_apply_is_c11_type; [assumption|assumption|reflexivity]).
+  destruct (proj1 sizes_all d Hc (MBase b) Hk (conj (size_ok_base b Hb) (align_ok_base b))) as [[H1 H2] Hal].
+  split; [reflexivity|]. split; [exact Hsh|]. split.
+  - intros a Ha. apply Hal. rewrite Hsh, alignof_unqual. exact Ha.
+  - intros s E. apply H1. rewrite Hsh, sizeof_unqual. exact E.
+Qed.
